@@ -1,7 +1,7 @@
 (* C13 — face latitude/longitude bounds enclose the face and are tight.
    Statements only; each closed by `exact` of a lemma from Proofs/, followed by Print Assumptions.
    Angles are integers in a fixed unit; P = full circle, H = pole latitude, FILL = uninitialised entry. *)
-From Verif Require Import Base C13 C13_proofs.
+From Verif Require Import Base C14_consts C14 C13 C13_proofs.
 Local Open Scope Z_scope.
 
 (* one insertion into the periodic longitude box: the result holds two normalised longitudes, contains the
@@ -67,3 +67,61 @@ Theorem C13_pole : forall P H, 0 < P -> 0 < H -> FILL < - H -> forall north es,
      forall e, In e es -> c13_lon_in b (c13_norm P (c13_lon1 e)) = true).
 Proof. exact c13_pole_spec. Qed.
 Print Assumptions C13_pole.
+
+(* --- pole containment (_pole_point_inside_polygon modelled on top of the C14 model of gca_gca_intersection) --- *)
+
+(* a face entirely on one hemisphere is never reported to contain the opposite pole *)
+Theorem C13_pole_opposite_hemisphere : forall edges,
+  (c13_location edges = c13_North -> c13_pole_inside false edges = Some false) /\
+  (c13_location edges = c13_South -> c13_pole_inside true edges = Some false).
+Proof. exact c13_pole_opposite_hemisphere. Qed.
+Print Assumptions C13_pole_opposite_hemisphere.
+
+(* machine-checked counterparts of the four known findings (each witness reproduces on the real code) *)
+Theorem C13_pole_detection_vertex_on_meridian_refuted :
+  exists edges, c13_pole_in_face c13_NPOLE edges = true /\ c13_pole_inside true edges = Some false.
+Proof. exact c13_pole_detection_vertex_on_meridian_refuted. Qed.
+Print Assumptions C13_pole_detection_vertex_on_meridian_refuted.
+
+Theorem C13_pole_detection_edge_through_ref_refuted :
+  exists edges, c13_pole_in_face c13_NPOLE edges = false /\ c13_pole_in_face c13_SPOLE edges = false /\
+                c13_pole_inside true edges = Some true /\ c13_pole_inside false edges = Some true.
+Proof. exact c13_pole_detection_edge_through_ref_refuted. Qed.
+Print Assumptions C13_pole_detection_edge_through_ref_refuted.
+
+Theorem C13_pole_detection_equator_south_refuted :
+  exists edges, c13_location edges = c13_Equator /\
+                c13_pole_in_face c13_SPOLE edges = true /\ c13_pole_in_face c13_NPOLE edges = false /\
+                c13_pole_inside true edges = Some true /\ c13_pole_inside false edges = Some true.
+Proof. exact c13_pole_detection_equator_south_refuted. Qed.
+Print Assumptions C13_pole_detection_equator_south_refuted.
+
+Theorem C13_pole_corner_longitude_refuted :
+  let P := 360000000 in let H := 90000000 in
+  Forall (c13_edge_ok H) c13_w_pole_corner /\
+  (forall e, In e c13_w_pole_corner -> c13_lat1 e <> H -> 10000000 <= c13_lon1 e <= 60000000) /\
+  c13_lon_lo (c13_face_bounds P H true false c13_w_pole_corner) = 0 /\
+  c13_lon_hi (c13_face_bounds P H true false c13_w_pole_corner) = 60000000.
+Proof. exact c13_pole_corner_longitude_refuted. Qed.
+Print Assumptions C13_pole_corner_longitude_refuted.
+
+(* --- bounds assembly, latitude (normal branch): the lower bound is the least edge minimum and the upper bound the greatest
+       edge maximum: tight at an edge apex whenever that apex is the extreme --- *)
+Theorem C13_normal_lat_min_max : forall P H, 0 < P -> 0 < H -> FILL < - H -> forall es,
+  es <> [] -> Forall (c13_edge_ok H) es ->
+  let b := c13_bounds_normal P H es in
+  (exists e, In e es /\ c13_lat_lo b = c13_emin e) /\ (forall e, In e es -> c13_lat_lo b <= c13_emin e) /\
+  (exists e, In e es /\ c13_lat_hi b = c13_emax e) /\ (forall e, In e es -> c13_emax e <= c13_lat_hi b).
+Proof. exact c13_normal_lat_min_max. Qed.
+Print Assumptions C13_normal_lat_min_max.
+
+(* --- ... hence invariant under the start corner and the traversal direction: edge lists with the same sets of edge minima
+       and maxima give the same latitude bounds --- *)
+Theorem C13_normal_lat_invariant : forall P H, 0 < P -> 0 < H -> FILL < - H -> forall es es',
+  es <> [] -> es' <> [] -> Forall (c13_edge_ok H) es -> Forall (c13_edge_ok H) es' ->
+  (forall v, (exists e, In e es /\ c13_emin e = v) <-> (exists e, In e es' /\ c13_emin e = v)) ->
+  (forall v, (exists e, In e es /\ c13_emax e = v) <-> (exists e, In e es' /\ c13_emax e = v)) ->
+  c13_lat_lo (c13_bounds_normal P H es) = c13_lat_lo (c13_bounds_normal P H es') /\
+  c13_lat_hi (c13_bounds_normal P H es) = c13_lat_hi (c13_bounds_normal P H es').
+Proof. exact c13_normal_lat_invariant. Qed.
+Print Assumptions C13_normal_lat_invariant.
